@@ -238,7 +238,7 @@ class Family:
             base = sid.split('.s')[0]
             if ev.get('ev') == 'pair':
                 return dict(program=progs[base], pair=dict(kind=ev['kind'], inputs=[dec(x) for x in ev['inputs']], extra=[dec(x) for x in ev['extra']],
-                                                           store=ev['store'], loop=loop_params(ev) if ev['kind'] == 'loop' else None), history=dict(inputs=[dec(x) for x in ev['inputs']], picks=[], mode='L'))
+                                                           store=ev['store'], loop=loop_params(ev) if ev['kind'] == 'loop' else None, modeb=ev.get('modeb'), pseed=ev.get('pseed', '')), history=dict(inputs=[dec(x) for x in ev['inputs']], picks=[], mode='L'))
             return dict(program=progs[base], history=dict(inputs=[], picks=[], mode='L'), note='event inside a paired run; see sid')
         self.validate(tr, 'paired runs (long-lived vs persisted, with vs without refused inputs)', case_of)
 
@@ -395,6 +395,19 @@ def replay_case(pid, path, trace_invs):
         tr = os.path.join(d, 'loop.ndjson')
         core.run_harness(['vise-loop-case', pp, cp, tr])
         w = core.spec_copy({'vt.cfg': trace_cfg([i for i in trace_invs if i in LOOP_INVS])})
+        viol, _ = core.validate_trace('ViseTrace', 'vt.cfg', tr, workdir=w)
+        if viol:
+            log('VIOLATION property=%s replay=%s' % (pid, path))
+            log('  %s: %s' % (viol[0][0], json.dumps(slim(viol[0][2]))[:500]))
+            return 1
+        log('replay: property holds on this case')
+        return 0
+    if pair.get('kind') == 'insert' and pair.get('modeb') == 'K':
+        cp = os.path.join(d, 'keptcase.json')
+        json.dump(dict(inputs=pair['inputs'], extra=pair['extra'], store=pair.get('store') or 'mem', pseed=pair.get('pseed', '0')), open(cp, 'w'))
+        tr = os.path.join(d, 'kept.ndjson')
+        core.run_harness(['vise-kept-case', pp, cp, tr])
+        w = core.spec_copy({'vt.cfg': trace_cfg(['C17_AsIfNeverSent'])})
         viol, _ = core.validate_trace('ViseTrace', 'vt.cfg', tr, workdir=w)
         if viol:
             log('VIOLATION property=%s replay=%s' % (pid, path))
